@@ -1,7 +1,7 @@
 #!/bin/sh
-# usage: mkworktree.sh <name>   -> /tmp/wt-<name>: scratch git worktree of /repo HEAD with the built kernels copied in
+# usage: mkworktree.sh <name> [prefix]  -> /tmp/<prefix><name>: scratch git worktree of /repo HEAD with the built kernels copied in
 set -e
-d=/tmp/wt-$1
+d=/tmp/${2:-wt-}$1
 git -C /repo worktree add --detach -f "$d" HEAD >/dev/null 2>&1
 cp /repo/regions/_geometry/*.so /repo/regions/_geometry/*.c "$d/regions/_geometry/" 2>/dev/null || true
 [ -f /repo/regions/version.py ] && cp /repo/regions/version.py "$d/regions/" || true
